@@ -23,7 +23,7 @@ ASSUMPTIONS = [
 ]
 MINIMUM = {"distinct": 2000, "alloc_ids": 500, "dup_cases": 300, "sweep_fired": 6}
 
-NSPEC = {"quick": 4000, "thorough": 60000}
+NSPEC = {"quick": 4000, "thorough": 300000}
 NSH = {"quick": 12, "thorough": 24}
 
 ALPHA = ["a", "b", "k", "x", "Z", "0", "9", "=", ":", "/", " ", ".", "-", "_", "é", "日", "\U0001f600", "\t", "@", ",", "%", "env", "id"]
@@ -195,7 +195,7 @@ def run_alloc(spec):
     lines = imodel.function_lines(multi.Group.allocate_id, multi.Group.__contains__, multi.Group.__getitem__)
     runs = []
     if spec["mode"] == "noise":
-        runs = [("noise", i) for i in range(150 if spec["tier"] == "quick" else 3000)]
+        runs = [("noise", i) for i in range(150 if spec["tier"] == "quick" else 10000)]
     elif spec["mode"] == "pct":
         runs = [("pct", i) for i in range(150 if spec["tier"] == "quick" else 3000)]
     else:
